@@ -20,7 +20,8 @@ Init == cell \in {c \in Cells : Valid(c)}
 Next == UNCHANGED cell
 Spec == Init /\ [][Next]_cell
 
-\* revision: 4 when the EIO parameter is 4, otherwise 3 (admitted only when revision 3 is allowed)
+\* revision: 4 when the EIO parameter is 4, otherwise 3 (admitted only when revision 3 is allowed); "otherwise" is every other
+\* value - absent, "3", and also "5", "04", "40", "+4", "4.0", a word
 Rev(c) == IF c.eio = "4" \/ c.transport = "webtransport" THEN 4 ELSE 3
 Admitted(c) == c.transport \in EnabledSet(c.enabled) /\ (Rev(c) = 4 \/ c.eio3)
 \* upgrade targets of the chosen transport that are enabled; none when upgrades are off or the session starts on a socket transport
